@@ -126,7 +126,7 @@ func checkProm(c *PromCase, body []byte) *Bad {
 
 func promCases() []*PromCase {
 	var out []*PromCase
-	tms := []int64{0, 1, 1700000000123, 9007199254740, math.MaxInt64 / 1000000}
+	tms := []int64{0, 1, 1700000000123, 9007199254740, math.MaxInt64/1000000 - 100000}
 	lb := func(k, v string) map[string]string { return map[string]string{"__name__": "up", k: v} }
 	// structure: 0..3 series x 0..3 points
 	for k := 0; k <= 3; k++ {
